@@ -330,7 +330,10 @@ func runCheck(prop, tier string, seed int) (int, *Evidence) {
 	assumptions = append(assumptions, propAssumptions[prop]...)
 	assumptions = append(assumptions, commonAssumptions...)
 	ev.Assumptions = assumptions
-	ev.Coverage["obligations"] = nObl
+	// obligations: the ones this run claims (an obligation that fails as a listed known finding is reported on its own
+	// line and in known_findings_matched, it is neither claimed nor counted as discharged)
+	ev.Coverage["obligations"] = nObl - len(knownHit)
+	ev.Coverage["obligations_generated"] = nObl
 	ev.Coverage["discharged"] = nOK - len(knownHit)
 	ev.Coverage["known_findings_matched"] = knownHit
 	ev.Coverage["checker_cmd"] = fmt.Sprintf("/verif/bin/vcheck check --prop %s --tier %s  (VC generator over go/ssa of /repo's working tree; solvers z3 5.1.0, z3 4.8.12, cvc5 1.0.x raced per obligation, timeout %s)", prop, tier, timeout)
